@@ -249,4 +249,17 @@ func init() {
 		Outside:     []string{"children that crash during the shutdown", "deeper / wider trees", "map iteration order of the children map: one order explored symbolically (native replays see Go's random order, hence several replay attempts)"},
 		Assumptions: thrAssume("bare engine, real process/Inbox/Context/SafeMap; node receivers record Stopped and check their descendants at that instant; the stop context's cancellation instant is observed through the context model's OnCancel hook"),
 	})
+
+	reg(&PropSpec{
+		ID: "C19",
+		Harnesses: func(tier string) []HarnessSpec {
+			return []HarnessSpec{{Name: "multi-agent-history", Pkg: "cluster", Func: "ZZ_C19", Preempt: 0, Params: pm("N", tierSel(tier, 2, 3), "K", 3),
+				Witnesses: []string{"remote-activation", "duplicate-activation", "deactivate", "join-with-active-actors", "leave-with-hosted-actor"}, Deadline: 60 * time.Minute}}
+		},
+		Bounds: func(tier string) string {
+			return fmt.Sprintf("%d nodes, each registering kind 'a' or not (symbolic), the last one joining later; quiescent histories of 3 operations (activate a/x or a/y from any member with the select function picking any offered member, deactivate any active actor from any member, late join, leave of a member other than node 0; operation symbolic), notifications delivered in every arrival order before the next operation", tierSel(tier, 2, 3))
+		},
+		Outside:     []string{"non-quiescent histories (operations overlapping their notifications)", "Cluster.Activate/GetActiveByID request plumbing: the agents are driven by the same messages those methods send", "Cluster.Spawn (sends the same Activation notification)", "more kinds / ids / members / operations", "SelectRandomMember (a harness select function picks every offered member instead)"},
+		Assumptions: seqAssume("each node: real Agent on a bare engine; network: synchronous in-memory Remoter delivering to the target node's registry; ActivationRequest/activate/getActive are handled at once (their senders block on them), all other agent messages are queued and drained in a harness-chosen order; activated actors are real processes spawned by Engine.Spawn (preemption bound 0: their inbox workers run when the harness blocks or quiesces)"),
+	})
 }
